@@ -8,7 +8,7 @@ props = [json.loads(l) for l in open(f"{HERE}/properties.jsonl")]
 CHECKS = {
  "C01": ("differential against an independent reference evaluator (written from the prose) over proptest-generated grammars x all start rules x generated + exhaustively enumerated inputs, both feature configurations",
          "Exploration: ~10^7 (quick) parses of ~80k generated grammars per configuration are compared (accept/reject and exact token stream) with the reference semantics evaluated on the unoptimized AST; every short string over each grammar's alphabet is enumerated for a subset. Sampled, not a proof.",
-         "Trusts harness/pv/src/refsem.rs as the reading of the documented semantics (calibration and ambiguity decisions in DESIGN.md 3.4), pest::unicode::by_name for Unicode property built-ins, and skips cases the prose leaves undefined (empty-stack POP/PEEK) or that diverge. Grammars touched by the lister rewrite are set aside (C05 finding D7). Thorough adds a libFuzzer campaign (fuzz/fuzz_targets/peg_struct.rs: byte-decoded grammars, C01's oracle with C05/C12/C15 riders, 1.2M executions, default features).",
+         "Trusts harness/pv/src/refsem.rs as the reading of the documented semantics (calibration and ambiguity decisions in DESIGN.md 3.4), pest::unicode::by_name for Unicode property built-ins, and skips cases the prose leaves undefined (empty-stack POP/PEEK) or that diverge. Grammars touched by the lister rewrite are set aside (C05 finding D7). Thorough adds a libFuzzer campaign (fuzz/fuzz_targets/peg_struct.rs: byte-decoded grammars, C01's oracle with C05/C12/C15 riders, 0.8M executions, default features).",
          "DESIGN.md section 4, C01"),
  "C02": ("differential testing of the real #[derive(Parser)] output against the VM: batches of generated grammars compiled into scratch crates at check time, both feature configurations",
          "Exploration: 16 batches x 70 generated grammars per configuration (quick; 450 thorough), every rule as start rule x ~12 inputs (~40k parse pairs per configuration); token streams, error positions and rule-name sets and panic-ness must agree; generated code that rustc rejects for an accepted grammar is itself a violation.",
